@@ -70,12 +70,21 @@ func init() {
 	})
 	add("time.runtimeNano", func(fr *frame, a []value) value { return int64(1) })
 	add("time.Sleep", func(fr *frame, a []value) value { return nil })
-	add("internal/sync.runtime_SemacquireMutex", func(fr *frame, a []value) value { return nil })
+	// A sequential harness that has to wait for a mutex would wait forever (nobody else runs): the schedule
+	// it stands for is not realisable, the path is discarded. (Harnesses use re-entrant calls to express
+	// "another goroutine ran here"; this is what keeps that sound for lock-protected regions.)
+	blocked := func(fr *frame, a []value) value {
+		panic(engineAbort{"assume-false", "blocked on a held mutex: the schedule is not realisable"})
+	}
+	add("internal/sync.runtime_SemacquireMutex", blocked)
+	add("internal/sync.runtime_canSpin", func(fr *frame, a []value) value { return false })
+	add("internal/sync.runtime_doSpin", func(fr *frame, a []value) value { return nil })
+	add("internal/sync.runtime_nanotime", func(fr *frame, a []value) value { return int64(0) })
 	add("internal/sync.runtime_Semrelease", func(fr *frame, a []value) value { return nil })
 	add("internal/sync.throw", func(fr *frame, a []value) value { panic(targetPanic{a[0]}) })
 	add("internal/sync.fatal", func(fr *frame, a []value) value { panic(targetPanic{a[0]}) })
-	add("sync.runtime_SemacquireRWMutexR", func(fr *frame, a []value) value { return nil })
-	add("sync.runtime_SemacquireRWMutex", func(fr *frame, a []value) value { return nil })
+	add("sync.runtime_SemacquireRWMutexR", blocked)
+	add("sync.runtime_SemacquireRWMutex", blocked)
 	add("sync.runtime_Semrelease", func(fr *frame, a []value) value { return nil })
 	add("sync.runtime_Semacquire", func(fr *frame, a []value) value { return nil })
 	add("sync.runtime_registerPoolCleanup", func(fr *frame, a []value) value { return nil })
